@@ -1003,6 +1003,40 @@ func holdbackRule(p *Prog, r *Report, rule string) {
 		bad = append(bad, fnName(w.Fn)+"@"+p.ipos(w.Instr))
 	}
 	r.Check(len(bad) == 0, rule, "core.acceptedRound:writers", "-", "", "set only from a join response's AcceptedRound", "acceptedRound is also written at "+strings.Join(bad, ", ")+" with a value that is not the AcceptedRound of a join response")
+	// the joiner does record the round it was given, before it starts babbling / catching up
+	if jn := p.Func(NODE, "Node", "join"); jn != nil {
+		var sts []*ssa.Store
+		for _, st := range storesIntoField(jn, fAcc) {
+			if flowsFromField(st.Val, "AcceptedRound") {
+				sts = append(sts, st)
+			}
+		}
+		starts := callsIn(jn, named(NODE+".Node.setBabblingOrCatchingUpState", NODE+".Node.transition"))
+		okJ, why := len(sts) > 0, ""
+		if len(sts) == 0 {
+			why = "Node.join never stores the response's AcceptedRound into core.acceptedRound"
+		}
+		for _, c := range starts {
+			if calleeFunc(c.Common()).Name() == "transition" {
+				// only the transitions that start the node (Babbling / CatchingUp)
+				if k, isC := intConst(argN(c, 0)); !isC || (k != statesOf(p)["Babbling"] && k != statesOf(p)["CatchingUp"]) {
+					continue
+				}
+			}
+			dom := false
+			for _, st := range sts {
+				if dominates(st, c) {
+					dom = true
+				}
+			}
+			if !dom && len(sts) > 0 {
+				okJ, why = false, "the node starts (at "+p.ipos(c)+") on a path on which core.acceptedRound was not set from the join response: it keeps the default -1 and records events at once"
+			}
+		}
+		r.Check(okJ, rule, "Node.join:acceptedRound-recorded-before-start", p.pos(jn.Pos()), fnName(jn), "acceptedRound = response.AcceptedRound before the node starts", why)
+	} else {
+		r.Anchor(rule, "node.(*Node).join")
+	}
 	// the promise is answered with the effective round
 	pait := p.Func(NODE, "core", "processAcceptedInternalTransactions")
 	if pait == nil {
@@ -1300,4 +1334,9 @@ func answersRule(p *Prog, r *Report, rule string) {
 		}
 		r.Check(ok, rule, h+":always-responds", p.pos(fn.Pos()), fnName(fn), "the request is answered on every path", why)
 	}
+}
+
+func statesOf(p *Prog) map[string]int64 {
+	m, _ := stateConsts(p)
+	return m
 }
